@@ -253,6 +253,18 @@ def use_lemma(it, thm, tname, binding, fr):
         ctx.oblige(f"{thm.name}.uses.{tname}.pre", formula(it, r_, lf), {"kind": "lemma-pre", "clause": r_})
     for k, src in t1.lets.items():
         lf.locals[k] = value_of(it, src, lf)
+    # the lemma's proof steps are obligations of the lemma's own run: available here too, with the same rebinding of
+    # memoised pure-call results to the structured value they were proved equal to
+    import re as _re
+    for sname, clause in t1.options.get("steps", []):
+        ctx.assume(formula(it, clause, lf))
+        m_ = _re.match(r"^\s*(\w+)\s*==\s*(\w+)\s*$", clause)
+        if m_ and m_.group(1) in lf.locals and m_.group(2) in lf.locals:
+            lhs, rhs = lf.locals[m_.group(1)], lf.locals[m_.group(2)]
+            memo = ctx.ghost.get("pure_calls", [])
+            for i_, (k_, keep_, out_) in enumerate(memo):
+                if out_[0] == "return" and out_[1] is lhs:
+                    memo[i_] = (k_, keep_, ("return", rhs, out_[2]))
     try:
         lf.locals["result"] = it.eval(parse_expr(t1.body), lf)
     except PyRaise as e:
@@ -266,6 +278,16 @@ def use_lemma(it, thm, tname, binding, fr):
         w = formula(it, case.when, lf)
         for cname, clause in case.clauses():
             ctx.assume(z3.Implies(w, formula(it, clause, lf)))
+            # an unconditional equation  result == <parameter>: later calls that return this memoised result see the
+            # (structured) parameter value instead of the opaque result symbol
+            import re as _re
+            m_ = _re.match(r"^\s*result\s*==\s*(\w+)\s*$", clause)
+            if m_ and m_.group(1) in lf.locals and (w is True or z3.is_true(z3.simplify(w) if not isinstance(w, bool) else z3.BoolVal(w))):
+                lhs, rhs = lf.locals["result"], lf.locals[m_.group(1)]
+                memo = ctx.ghost.get("pure_calls", [])
+                for i_, (k_, keep_, out_) in enumerate(memo):
+                    if out_[0] == "return" and out_[1] is lhs:
+                        memo[i_] = (k_, keep_, ("return", rhs, out_[2]))
     ctx.notes["assumed_contracts"].add(tname + " (lemma)")
 
 
